@@ -87,6 +87,9 @@ def gen_case(rng, tier, avoid):
                 bop = dict(sb[0], h='L%d_bad' % li, c=li)
                 if naming != 'default':
                     bop['kwargs'] = dict(bop['kwargs'], set_name='S%d' % li)
+                    if n_lf > 1 and rng.random() < 0.5:
+                        # the rejected call names the set of ANOTHER logical file: nothing of this one ever gets into that set
+                        bop['kwargs']['set_name'] = 'S%d' % rng.choice([x for x in range(n_lf) if x != li])
                 ops = list(ops)
                 ops.insert(rng.randint(2, len(ops)), bop)
         progs.append(ops)
